@@ -812,6 +812,19 @@ func codecEngine(args []string, in *bufio.Scanner, out *bufio.Writer) {
 					var ex []string
 					if err == nil {
 						ex = infoExtras(back)
+						// "equal parameters give equal encodings in every encoding path": the same value handed to
+						// encoding/json by value, as a struct field, as a slice and as a map element
+						same := "true"
+						if v, e := json.Marshal(*info); e != nil || !bytes.Equal(v, raw) {
+							same = "by-value"
+						} else if v, e := json.Marshal(struct{ I chain.Info }{*info}); e != nil || string(v) != `{"I":`+string(raw)+`}` {
+							same = "struct-field"
+						} else if v, e := json.Marshal([]chain.Info{*info}); e != nil || string(v) != `[`+string(raw)+`]` {
+							same = "slice-element"
+						} else if v, e := json.Marshal(map[string]chain.Info{"i": *info}); e != nil || string(v) != `{"i":`+string(raw)+`}` {
+							same = "map-element"
+						}
+						ex = append(ex, "sameenc="+same)
 					}
 					emit(cs, "info-json", before, back, err, ex...)
 				})
